@@ -83,7 +83,7 @@ type fconn struct {
 }
 
 // bfdTx records when a BFD session (identified by its discriminator) last
-// transmitted; used only to choose the moment of the quiescent Shutdown.
+// transmitted (diagnostics only).
 type bfdTx struct {
 	last, prev int64
 	state      int
